@@ -427,24 +427,29 @@ Definition mirror_block (bg : bool) (addr : Z) (ws : list Z) (temps : list (list
    theorems assume; both are evaluated by the tie for every enumerated encoding ---------- *)
 Definition proved_plain (i : minstr) : bool :=
   match i with
-  | MAlu3 _ _ _ _ | MShi _ _ _ _ | MShv _ _ _ _ | MAluI _ _ _ _ | MLui _ _
-  | MMfhi _ | MMflo _ | MMthi _ | MMtlo _ | MTeq _ _ _ | MBreak _ | MSyscall _ | MSync _ | MPref _ _ _ => true
-  | _ => false
+  | MRdhwr _ _ => false                 (* hardware registers: UNPREDICTABLE in the specification, lifted to an intrinsic *)
+  | i => negb (is_control i)
   end.
 
-
 Definition regb (r : Z) : bool := (0 <=? r) && (r <=? 31).
+Definition immb (x : Z) : bool := (0 <=? x) && (x <? 2 ^ 16).
 Definition fields_okb (i : minstr) : bool :=
   match i with
   | MAlu3 _ rd rs rt => regb rd && regb rs && regb rt
   | MShi _ rd rt sa => regb rd && regb rt && (0 <=? sa) && (sa <? 32)
   | MShv _ rd rt rs => regb rd && regb rt && regb rs
-  | MAluI _ rt rs imm => regb rt && regb rs && (0 <=? imm) && (imm <? 2 ^ 16)
-  | MLui rt imm => regb rt && (0 <=? imm) && (imm <? 2 ^ 16)
+  | MAluI _ rt rs imm => regb rt && regb rs && immb imm
+  | MLui rt imm => regb rt && immb imm
+  | MClz rd rs | MClo rd rs => regb rd && regb rs
+  | MMulDiv _ rs rt => regb rs && regb rt
   | MMfhi r | MMflo r | MMthi r | MMtlo r => regb r
+  | MLoad _ rt base off | MStore _ rt base off => regb rt && regb base && immb off
   | MTeq rs rt _ => regb rs && regb rt
   | _ => true
   end.
+(* the ids of the temporaries of one graph are pairwise distinct *)
+Fixpoint nodupN (l : list N) : bool :=
+  match l with [] => true | x :: t => negb (existsb (N.eqb x) t) && nodupN t end.
 Definition off_okb (a off : Z) : bool :=
   (0 <=? off) && (off <? 2 ^ 16) && (0 <=? a + 4 + sx16 off * 4) && (a + 4 + sx16 off * 4 <? 2 ^ 32).
 Definition branch_okb (a : Z) (b : minstr) : bool :=
